@@ -122,7 +122,7 @@ def Message.deserialize (buf : List Nat) : Option (Header × List Nat) :=
 /-- `SelectiveAck::new(unacked)`: set bit `idx` for each index, `take_while (< SACK_DEPTH)`. -/
 def Sack.ofIndices (idxs : List Nat) : Sack :=
   let kept := idxs.takeWhile (· < SACK_DEPTH)
-  let byte (k : Nat) : Nat := (List.range 8).foldl (fun acc b => if kept.contains (k * 8 + b) then acc + 2 ^ b else acc) 0
+  let byte (k : Nat) : Nat := ((List.range 8).map (fun b => if kept.contains (k * 8 + b) then 2 ^ b else 0)).sum
   { data := (List.range 8).map byte, len := SACK_DEPTH }
 
 /-- bit `i` (LSB-first within each byte) of the 64-bit array: `sack.iter().nth(i)`. -/
